@@ -27,7 +27,7 @@ TARGETS = ["own:Cls", "own:Note", "own:Package", "declared:Item", "match:INT", "
 STYLES = ["plain", "semantic", "full", "partial", "wrapped", "full_semantic", "full_syntax"]
 RULE = ("generated package trees (depth<=3) x target kind (own rule Cls/Note/Package, abstract declared rule Item, base type "
         "INT, user match rule Tag) x index k of the failing call x raise style (5) x string/file load x generated layout. "
-        "non-trivial: the failing object/match is nested (depth >= 2) and not on line 1; distinct by canonical JSON")
+        "non-trivial: the failing object/match is nested (depth >= 2) and not on line 1; processors raise TextXError / TextXSemanticError / TextXSyntaxError with none, part or all of the location; distinct by canonical JSON")
 ASSUMPTIONS = [
     "textxerror_wrap is applied to object processors (for match processors the plain exception styles are used)",
     "the processed text of a match is the matched token, of an object its span from first to last token",
